@@ -179,6 +179,23 @@ pub struct Sys<F: SemFlavor> {
 
 const G: usize = 0;
 
+/// request size of alphabet letter n: letter 7 stands for a request that does not fit into 32 bits
+/// (2^32 + 2 permits; on a 32-bit target: usize::MAX)
+fn amt(n: u8) -> usize {
+    if n == 7 {
+        (u32::MAX as usize).saturating_add(3)
+    } else {
+        n as usize
+    }
+}
+fn code(a: usize) -> u8 {
+    if a > 200 {
+        207
+    } else {
+        a as u8
+    }
+}
+
 impl<F: SemFlavor> Sys<F> {
     fn sem(&self) -> &F::Sem {
         self.sem.as_ref().expect("handle")
@@ -359,11 +376,11 @@ impl<F: SemFlavor> System for Sys<F> {
         match op {
             Op::Create(i, n) => {
                 let i = i as usize;
-                match lib(|| F::acquire(self.sem(), n as usize)) {
+                match lib(|| F::acquire(self.sem(), amt(n))) {
                     Ok(f) => {
                         let mut meta = Meta::default();
                         meta.seen = sample_seen(G, i);
-                        self.slots[i] = Some(Slot { fut: Pinned::new(f), rel: None, armed: false, req: n as usize, meta, wait_seq: 0 });
+                        self.slots[i] = Some(Slot { fut: Pinned::new(f), rel: None, armed: false, req: amt(n), meta, wait_seq: 0 });
                     }
                     Err(p) => out.v("C01", "panic", format!("acquire({}) panicked: {}", n, p)),
                 }
@@ -466,22 +483,23 @@ impl<F: SemFlavor> System for Sys<F> {
                 }
                 self.ledger += n as usize;
             }
-            Op::TryAcquire(n) => {
+            Op::TryAcquire(n0) => {
+                let n = amt(n0);
                 let anyp = (0..self.k).any(|j| self.pending(j));
-                match lib(|| F::try_acquire(self.sem(), n as usize)) {
+                match lib(|| F::try_acquire(self.sem(), n)) {
                     Err(p) => out.v("C01", "panic", format!("try_acquire({}) panicked: {}", n, p)),
                     Ok(Some(r)) => {
                         out.o("Some");
-                        if self.ledger < n as usize {
+                        if self.ledger < n {
                             out.v("C05", "over-grant", format!("try_acquire({}) succeeded while only {} permits were available", n, self.ledger));
                             self.ledger = 0;
                         } else {
-                            self.ledger -= n as usize;
+                            self.ledger -= n;
                         }
                         if self.fair && n > 0 && anyp {
                             out.v("C07", "overtaking", format!("try_acquire({}) succeeded although acquire futures are pending", n));
                         }
-                        self.rels.push((r, n as usize, true));
+                        self.rels.push((r, n, true));
                     }
                     Ok(None) => {
                         out.o("None");
@@ -536,7 +554,7 @@ impl<F: SemFlavor> System for Sys<F> {
             match &self.slots[i] {
                 None => recs.push(vec![255]),
                 Some(s) => {
-                    let mut r = vec![s.req as u8, s.meta.polled as u8, s.meta.done as u8, s.meta.repolled as u8];
+                    let mut r = vec![code(s.req), s.meta.polled as u8, s.meta.done as u8, s.meta.repolled as u8];
                     if s.meta.pending() {
                         r.push(s.meta.last);
                         r.push(fresh(G, i, &s.meta) as u8);
@@ -574,7 +592,7 @@ impl<F: SemFlavor> System for Sys<F> {
         v.extend(harness::norm(&self.dbg()));
         v.push(self.sem.is_some() as u8);
         v.push(snap.queues[0].len() as u8);
-        let mut rr: Vec<(u8, u8)> = self.rels.iter().map(|r| (r.1 as u8, r.2 as u8)).collect();
+        let mut rr: Vec<(u8, u8)> = self.rels.iter().map(|r| (code(r.1), r.2 as u8)).collect();
         rr.sort();
         for r in rr {
             v.push(r.0);
